@@ -14,7 +14,7 @@ IMPORTS = "Base Json MD5 Canon FS Ws Cache Repair CorrC09"
 CASE_TYPE = "case_C09"
 MISMATCHES = "mismatches_C09"
 VIOLATIONS = "violations_C09"
-KNOWN = "known_C09"
+KNOWN = None
 SHARD = 60
 RULE = ("real projects of 1-4 jobs drawn from 8 state point shapes (nested, floats, unicode, null, empty containers), "
         "each job with a document and data files; damage to up to 3 jobs: truncation of the state point file at a byte "
@@ -102,15 +102,15 @@ def _rand_multi(rng):
 
 
 DIRECTED = [
-    # a directory named md5("null") without a state point file: load() accepts None
+    # a directory named md5("null") without a state point file (load() accepted None before ae33aa8)
     {"jobs": [0, 1], "cache": "none", "damage": [[0, "rename", "null", 0], [0, "delete"]]},
     {"jobs": [0], "cache": "none", "damage": [[0, "rename", "null", 0], [0, "delete"]]},
-    # repair aborts at the first job it cannot look up (both listing orders are likely among these)
+    # repair used to abort at the first job it cannot look up (before bdc03b3)
     {"jobs": [0, 1, 2, 3], "cache": "none", "damage": [[0, "trunc", 3], [1, "rename", "rand", 1], [2, "rename", "rand", 2]]},
     {"jobs": [0, 1, 2, 3], "cache": "none", "damage": [[3, "delete"], [1, "rename", "rand", 3], [0, "rename", "rand", 4]]},
     {"jobs": [4, 5, 6], "cache": "partial:1", "damage": [[1, "trunc", 5], [0, "delete"], [2, "rename", "rand", 5]]},
     {"jobs": [4, 5, 6], "cache": "none", "damage": [[1, "replace", "null"], [0, "rename", "rand", 6], [2, "rename", "rand", 7]]},
-    # repair registers an unvalidated state point under the wrong id
+    # repair used to register an unvalidated state point under the wrong id (before 3837846)
     {"jobs": [0, 1], "cache": "none", "damage": [[0, "replace", "other"]]},
     {"jobs": [2, 3, 4], "cache": "partial:1", "damage": [[1, "replace", "other"], [2, "replace", "other"]]},
 ]
